@@ -24,9 +24,11 @@
   is "return the state unchanged, no output".
 
   Scope.  One adapter bound without network number and address
-  (`nsap.bind(server)`: `adapterNet = None`), link frames addressed to the
-  station itself (unicast; a broadcast NetworkNumberIs could teach the adapter
-  its network number — C06/C19 territory).  The application is abstract: a
+  (`nsap.bind(server)`: `adapterNet = None`); link frames addressed to the
+  station itself or broadcast on its LAN (`bcast`).  The adapter may LEARN its
+  network number from broadcast Network-Number-Is messages (`net`, `netCfg`);
+  from then on an SNET or a remote DNET equal to it is a path error (dropped)
+  and a peer on that network is answered as a local station.  The application is abstract: a
   transition system `serve` over an arbitrary state type `σ` that answers each
   indication of a confirmed request with exactly one of simple ack / complex ack
   / error / reject / abort (that is what `Application.indication` guarantees for
@@ -197,6 +199,15 @@ structure DevState (σ : Type) where
   /-- `router_info_cache.path_info[(None, dnet)].address`: the station through
       which network `dnet` was last heard (C19 shows the cache coherent) -/
   routes : List (Nat × Bytes) := []
+  /-- `adapter.adapterNet`: the network number of the LAN, once learned -/
+  net : Option Nat := none
+  /-- `adapter.adapterNetConfigured`: `none` unknown, `some 0` learned, `some 1` configured
+      (the flag octet of the Network-Number-Is that was believed last) -/
+  netCfg : Option Nat := none
+  /-- `NetworkServiceElement.network_number_is_task` is set (it stays set after it ran) -/
+  nniTask : Bool := false
+  /-- … and is scheduled (10 000 s after a broadcast What-Is-Network-Number) -/
+  nniPending : Bool := false
   app : σ
 
 /-! ## network layer -/
@@ -211,28 +222,28 @@ def getRoute (l : List (Nat × Bytes)) (net : Nat) : Option Bytes :=
   | [] => none
   | (n, v) :: rest => if n = net then some v else getRoute rest net
 
-/-- "check for source routing": `update_router_info(adapterNet, pduSource, [snet])`
-    (`snet in self.adapters` cannot hold: the only key is `None`) -/
+/-- "see if this is attempting to spoof a directly connected network":
+    `snet in self.adapters` — the only key is the adapter's own network number -/
+def spoofed (net : Option Nat) (h : Npci.Npci) : Bool :=
+  match h.sadr, net with
+  | some (.remoteStation snet _), some n => snet = n
+  | _, _ => false
+
+/-- "check for source routing": `update_router_info(adapterNet, pduSource, [snet])` -/
 def learnSadr (routes : List (Nat × Bytes)) (src : Bytes) (h : Npci.Npci) : List (Nat × Bytes) :=
   match h.sadr with
   | some (.remoteStation snet _) => setRoute routes snet src
   | _ => routes
 
-/-- "check for destination routing" on a single adapter without network number:
-    a remote station / remote broadcast DADR is never for us (`addrNet == None`
-    is false) and there is nowhere to forward it to -/
+/-- "check for destination routing" on a single adapter: a remote station /
+    remote broadcast DADR naming the adapter's own network is a path error
+    ((2), (3): `return`), any other network is not ours and there is nowhere to
+    forward it to; either way nothing is processed -/
 def processLocally (h : Npci.Npci) : Bool :=
   match h.dadr with
   | none => true
   | some .globalBroadcast => true
   | some _ => false
-
-/-- `NetworkServiceElement.indication`: of the twelve messages only
-    I-Am-Router-To-Network changes anything on a non-router that received the
-    message as a unicast (`update_router_references`) -/
-def learnMsg (routes : List (Nat × Bytes)) (src : Bytes) : Npci.NetMsg → List (Nat × Bytes)
-  | .iAmRouterToNetwork nets => nets.foldl (fun r n => setRoute r n src) routes
-  | _ => routes
 
 /-- a frame toward the link: destination station (`none` = local broadcast) and octets -/
 structure Frame where
@@ -240,12 +251,57 @@ structure Frame where
   octets : Bytes
 deriving DecidableEq, Repr, Inhabited
 
+/-- the network layer part of the state a network message can change -/
+structure NetState where
+  routes : List (Nat × Bytes)
+  net : Option Nat
+  netCfg : Option Nat
+  nniTask : Bool
+  nniPending : Bool
+deriving DecidableEq, Repr
+
+/-- `network_number_is(adapter)`: broadcast what we know (nothing without a number) -/
+def nniFrame (net : Option Nat) (netCfg : Option Nat) : List Frame :=
+  match net with
+  | none => []
+  | some n =>
+    match Npci.encodeMessage {} (.networkNumberIs n (match netCfg with | some c => c | none => 0)) with
+    | .ok f => [⟨none, f⟩]
+    | .error _ => []
+
+/-- `NetworkServiceElement.indication` on a non-router: I-Am-Router-To-Network
+    (`update_router_references`), What-Is-Network-Number (answered at once when
+    asked directly or when the answer task exists already, otherwise — asked by
+    broadcast — after 10 000 s, "wait for somebody else to answer"),
+    Network-Number-Is (believed only when broadcast: cancels the answer task;
+    first number learned, a learned number replaced unless flagged configured).
+    The other nine message types change nothing here. -/
+def nse (ns : NetState) (src : Bytes) (bcast : Bool) : Npci.NetMsg → NetState × List Frame
+  | .iAmRouterToNetwork nets => ({ ns with routes := nets.foldl (fun r n => setRoute r n src) ns.routes }, [])
+  | .whatIsNetworkNumber =>
+    match ns.net with
+    | none => (ns, [])
+    | some _ =>
+      if bcast && !ns.nniTask then ({ ns with nniTask := true, nniPending := true }, [])
+      else (ns, nniFrame ns.net ns.netCfg)
+  | .networkNumberIs n flag =>
+    if !bcast then (ns, [])
+    else
+      let ns := { ns with nniTask := false, nniPending := false }
+      match ns.net with
+      | none => ({ ns with net := some n, netCfg := some 0 }, [])
+      | some m =>
+        if m = n then (ns, [])
+        else if ns.netCfg = some 1 then (ns, [])
+        else ({ ns with net := some n, netCfg := some flag }, [])
+  | _ => (ns, [])
+
 /-- `NetworkServiceAccessPoint.indication` + `NetworkAdapter.process_npdu` for
     one APDU the state machines send.  An encoder exception (a field that does
     not fit its octet) ends the task: nothing is sent.  A remote destination
     without a known path would be parked behind a Who-Is-Router-To-Network
     (not modelled: a path is learned from every routed frame before it is answered). -/
-def emitApdu (routes : List (Nat × Bytes)) (p : Peer) (a : Apdu) : List Frame :=
+def emitApdu (net : Option Nat) (routes : List (Nat × Bytes)) (p : Peer) (a : Apdu) : List Frame :=
   match encodeApdu (toApci a) a.data with
   | .error _ => []
   | .ok apdu =>
@@ -257,22 +313,26 @@ def emitApdu (routes : List (Nat × Bytes)) (p : Peer) (a : Apdu) : List Frame :
     | .localStation mac => wire (some mac) {}
     | .localBroadcast => wire none {}
     | .globalBroadcast => wire none { dadr := some .globalBroadcast, hopCount := some 255 }
-    | .remoteStation net mac =>
-      match getRoute routes net with
-      | some via => wire (some via) { dadr := some (.remoteStation net mac), hopCount := some 255 }
-      | none => []
-    | .remoteBroadcast net =>
-      match getRoute routes net with
-      | some via => wire (some via) { dadr := some (.remoteBroadcast net), hopCount := some 255 }
-      | none => []
+    | .remoteStation dnet mac =>
+      if net = some dnet then wire (some mac) {}          -- "mapping remote station to local station"
+      else
+        match getRoute routes dnet with
+        | some via => wire (some via) { dadr := some (.remoteStation dnet mac), hopCount := some 255 }
+        | none => []
+    | .remoteBroadcast dnet =>
+      if net = some dnet then wire none {}                -- "mapping remote broadcast to local broadcast"
+      else
+        match getRoute routes dnet with
+        | some via => wire (some via) { dadr := some (.remoteBroadcast dnet), hopCount := some 255 }
+        | none => []
     | .null => []
 
-def emit (routes : List (Nat × Bytes)) : Out → List Frame
-  | .send p a => emitApdu routes p a
+def emit (net : Option Nat) (routes : List (Nat × Bytes)) : Out → List Frame
+  | .send p a => emitApdu net routes p a
   | _ => []
 
-def emitAll (routes : List (Nat × Bytes)) (outs : List Out) : List Frame :=
-  outs.flatMap (emit routes)
+def emitAll (net : Option Nat) (routes : List (Nat × Bytes)) (outs : List Out) : List Frame :=
+  outs.flatMap (emit net routes)
 
 /-! ## application layer above the state machines -/
 
@@ -325,7 +385,8 @@ def deliver {σ} (cfg : DevCfg σ) (s : DevState σ) (peer : Peer) (a : Apdu) : 
     `dropped` predicate of C10 `isolation`) -/
 inductive Fate
   | badNpci         -- NPCI.decode raised
-  | notForUs        -- DADR of another network
+  | spoofed         -- SNET = the adapter's own network: "path error (1)"
+  | notForUs        -- DADR of another network, or a path error (2)/(3)
   | unknownMsg      -- network message type not in npdu_types
   | badMsg          -- network message body does not decode
   | netMsg          -- network message handled by the service element
@@ -333,11 +394,12 @@ inductive Fate
   | delivered       -- handed to the state machine access point
 deriving DecidableEq, Repr, Inhabited
 
-def fate (f : Bytes) : Fate :=
+def fate (net : Option Nat) (f : Bytes) : Fate :=
   match Npci.decodeNpci f with
   | .error _ => .badNpci
   | .ok (h, rest) =>
-    if !processLocally h then .notForUs
+    if spoofed net h then .spoofed
+    else if !processLocally h then .notForUs
     else
       match h.netMessage with
       | some c =>
@@ -352,11 +414,21 @@ def fate (f : Bytes) : Fate :=
         | .error _ => .badApci
         | .ok _ => .delivered
 
-/-- One link frame from station `src` addressed to this station. -/
-def recv {σ} (cfg : DevCfg σ) (s : DevState σ) (src : Bytes) (f : Bytes) : DevState σ × List Frame :=
+def DevState.netState {σ} (s : DevState σ) : NetState :=
+  ⟨s.routes, s.net, s.netCfg, s.nniTask, s.nniPending⟩
+
+def DevState.withNet {σ} (s : DevState σ) (ns : NetState) : DevState σ :=
+  { s with routes := ns.routes, net := ns.net, netCfg := ns.netCfg, nniTask := ns.nniTask,
+           nniPending := ns.nniPending }
+
+/-- One link frame from station `src`, addressed to this station or (`bcast`) to all. -/
+def recv {σ} (cfg : DevCfg σ) (s : DevState σ) (src : Bytes) (bcast : Bool) (f : Bytes) :
+    DevState σ × List Frame :=
   match Npci.decodeNpci f with
   | .error _ => (s, [])
   | .ok (h, rest) =>
+    if spoofed s.net h then (s, [])
+    else
     let s := { s with routes := learnSadr s.routes src h }
     if !processLocally h then (s, [])
     else
@@ -367,7 +439,9 @@ def recv {σ} (cfg : DevCfg σ) (s : DevState σ) (src : Bytes) (f : Bytes) : De
         | some k =>
           match Npci.decodeBody k rest with
           | .error _ => (s, [])
-          | .ok m => ({ s with routes := learnMsg s.routes src m }, [])
+          | .ok m =>
+            let (ns, out) := nse s.netState src bcast m
+            (s.withNet ns, out)
       | none =>
         match decodeApdu rest with
         | .error _ => (s, [])
@@ -377,13 +451,20 @@ def recv {σ} (cfg : DevCfg σ) (s : DevState σ) (src : Bytes) (f : Bytes) : De
             | some a => a
             | none => .localStation src
           let (s', outs) := deliver cfg s (peerOf source) (ofApci hd data)
-          (s', emitAll s'.routes outs)
+          (s', emitAll s'.net s'.routes outs)
+
+/-- a queued datagram: sending station, link-level broadcast?, octets -/
+structure Dgram where
+  src : Bytes
+  bcast : Bool := false
+  octets : Bytes
+deriving DecidableEq, Repr, Inhabited
 
 /-- the datagrams queued at one instant, in order: a fold -/
-def recvAll {σ} (cfg : DevCfg σ) : DevState σ → List (Bytes × Bytes) → DevState σ × List Frame
+def recvAll {σ} (cfg : DevCfg σ) : DevState σ → List Dgram → DevState σ × List Frame
   | s, [] => (s, [])
-  | s, (src, f) :: rest =>
-    let (s1, o1) := recv cfg s src f
+  | s, d :: rest =>
+    let (s1, o1) := recv cfg s d.src d.bcast d.octets
     let (s2, o2) := recvAll cfg s1 rest
     (s2, o1 ++ o2)
 
@@ -430,7 +511,10 @@ def quiesceLoop {σ} (cfg : DevCfg σ) : Nat → DevState σ → DevState σ × 
     `budget` firings; `C10.quiesce_complete` shows that no timer is armed then. -/
 def quiesce {σ} (cfg : DevCfg σ) (s : DevState σ) : DevState σ × List Frame :=
   let (s', outs) := quiesceLoop cfg (budget cfg.base.retries s.sap.servers) s
-  (s', emitAll s'.routes outs)
+  -- the Network-Number-Is answer task (10 000 s) runs after every transaction timer
+  if s'.nniPending then
+    ({ s' with nniPending := false }, emitAll s'.net s'.routes outs ++ nniFrame s'.net s'.netCfg)
+  else (s', emitAll s'.net s'.routes outs)
 
 /-! ## the property's reading of octets (independent of the codecs above;
     mirrors harness/c10_impl.classify and harness/e2e.decode_apdu_header) -/
